@@ -233,6 +233,7 @@ struct St {
     transitions: u64,
     sweeps: u64,
     rom_reloads: u64,
+    frame_end_outs: u64,
     states: HashSet<u32>,
     sample: Option<J>,
 }
@@ -257,9 +258,19 @@ fn history(ctx: &Ctx, rng: &mut Rng, is128: bool, host_rom: bool, len: usize, st
                     3 => (rng.u16() & 0x7FFF) | 0x0003,            // A15=0 but A1=1: not the latch
                     _ => latch_port(rng),
                 };
+                // one write in five is issued so that its I/O cycle falls on the last T-states of a
+                // frame or the first ones of the next (the frame clock is set through the hook)
+                let mut at = String::new();
+                if rng.chance(1, 5) {
+                    let fr = m.frame_len();
+                    let t = fr - 1 - rng.below(16) as usize;
+                    m.set_clock(t);
+                    at = format!(" issued at frame T={} of {}", t, fr);
+                    st.frame_end_outs += 1;
+                }
                 cpu_out(&mut m, port, v);
                 sh.out(port, v);
-                hist.push(format!("OUT {:04x},{:02x}", port, v));
+                hist.push(format!("OUT {:04x},{:02x}{}", port, v, at));
                 st.states.insert((sh.is128 as u32) << 16 | (sh.latch as u32 & 0x3F) << 1 | sh.locked as u32);
             }
             3 | 4 | 5 | 6 => {
@@ -431,7 +442,7 @@ pub fn run(ctx: &Ctx) -> Evidence {
     let emb = [embedded_roms(false), embedded_roms(true)];
     let emb = &emb;
     let res = par_map(ctx.jobs(), shards, |shd| {
-        let mut st = St { ops: 0, transitions: 0, sweeps: 0, rom_reloads: 0, states: HashSet::new(), sample: None };
+        let mut st = St { ops: 0, transitions: 0, sweeps: 0, rom_reloads: 0, frame_end_outs: 0, states: HashSet::new(), sample: None };
         // exhaustive transitions: 64 states spread over the shards; host ROM for odd states
         transitions(ctx, shd as u32, shd % 2 == 1, &mut st, emb);
         for i in 0..(n_hist / shards).max(1) {
@@ -446,6 +457,7 @@ pub fn run(ctx: &Ctx) -> Evidence {
     for r in res {
         ev.evaluations += r.ops + r.transitions;
         ev.add_num("history_ops", r.ops);
+        ev.add_num("port_writes_issued_within_16_T_of_a_frame_end", r.frame_end_outs);
         ev.add_num("exhaustive_transitions", r.transitions);
         ev.add_num("full_sweeps", r.sweeps);
         ev.add_num("rom_sets_reloaded_at_run_time", r.rom_reloads);
